@@ -109,27 +109,53 @@ def run(ctx):
                               {"signature": "C13:nonfinite:%s:%.3f" % (l2[8:63], minutes), **base, "state": arr.tolist(), "summary_period_min": per})
 
     # ---------------- decay stratum: follow high-drag, eccentric sets until they are refused ----------------
-    for k in range(ctx.n(6, 40)):
+    def answered_badly(state):
+        arr = np.concatenate([np.asarray(state[0], dtype=float).ravel(), np.asarray(state[1], dtype=float).ravel()])
+        r_km = float(np.linalg.norm(arr[:3]))
+        return (not np.all(np.isfinite(arr))) or r_km < 6378.135 * (1 - 1e-9), r_km
+
+    for k in range(ctx.n(14, 60)):
         f = tlegen.random_fields(ctx.rng)
-        f["mm"] = ctx.rng.uniform(14.8, 15.6)
-        f["ecc"] = ctx.rng.randint(200000, 450000)            # perigee just above 220 km, apogee high
-        f["bstar"] = (ctx.rng.randint(20000, 99999), -ctx.rng.randint(1, 2), " ")
+        f["mm"] = ctx.rng.uniform(12.8, 14.6)
+        a_km = (8681663.653 / f["mm"]) ** (2.0 / 3.0)
+        peri = ctx.rng.uniform(224, 300)                      # perigee above 220 km at epoch, apogee high: the radius guard decides
+        f["ecc"] = max(1, int((1 - (6378.135 + peri) / a_km) * 1e7))
+        # the short-period radius correction lowers the radius for cos^2 i > 1/3 and raises it otherwise: both sides
+        f["inc"] = ctx.rng.choice([ctx.rng.uniform(3, 50), ctx.rng.uniform(3, 50), ctx.rng.uniform(130, 177), ctx.rng.uniform(55, 125)])
+        f["bstar"] = (ctx.rng.randint(20000, 99999), -1, " ")
         l1, l2 = tlegen.make(**f)
         iclass, orb = sgp4common.impl_init(l1, l2)
         if iclass != "ok":
             continue
         ep = orb.tle.epoch.astype("datetime64[us]")
-        for step in range(0, 4000, 7):
-            t = ep + np.timedelta64(step * 60 * 10**6, "us")
-            pclass, state = sgp4common.impl_prop(orb, t)
+
+        def at(seconds):
+            t = ep + np.timedelta64(int(seconds) * 10**6, "us")
+            return sgp4common.impl_prop(orb, t)
+        first_bad = None
+        for step in range(0, 20000, 7):                         # minutes
+            pclass, state = at(step * 60)
             ctx.case(("decay", l1, l2, step))
             if pclass != "ok":
                 if pclass in ("hang",) or pclass.startswith("raise:"):
                     ctx.violation("propagation ended with %s" % pclass, {"signature": "C13:prop:%s:%s" % (pclass, l2[8:63]), "line1": l1, "line2": l2, "minutes": step})
+                first_bad = step
                 break
-            arr = np.concatenate([np.asarray(state[0], dtype=float).ravel(), np.asarray(state[1], dtype=float).ravel()])
-            r_km = float(np.linalg.norm(arr[:3]))
-            if not np.all(np.isfinite(arr)) or r_km < 6378.135 * (1 - 1e-3):
+            bad, r_km = answered_badly(state)
+            if bad:
                 ctx.violation("a decayed orbit was answered (state inside the earth or not finite) instead of raising",
-                              {"signature": "C13:decayed:%s:%d" % (l2[8:63], step), "line1": l1, "line2": l2, "minutes": step, "radius_km": r_km})
+                              {"signature": "C13:decayed:%s:%d" % (l2[8:63], step * 60), "line1": l1, "line2": l2, "seconds": step * 60, "radius_km": r_km})
+                first_bad = None
                 break
+        if first_bad:
+            # the last revolution before the first refusal, every 5 s: the satellite dips through the surface there
+            for sec in range(max(0, (first_bad - 100) * 60), first_bad * 60, 5):
+                pclass, state = at(sec)
+                ctx.case(("decay-fine", l1, l2, sec))
+                if pclass != "ok":
+                    continue
+                bad, r_km = answered_badly(state)
+                if bad:
+                    ctx.violation("a decayed orbit was answered (state inside the earth or not finite) instead of raising",
+                                  {"signature": "C13:decayed:%s:%d" % (l2[8:63], sec), "line1": l1, "line2": l2, "seconds": sec, "radius_km": r_km})
+                    break
